@@ -685,6 +685,10 @@ def sbs_options(rng, line_numbers=None, width=None):
     if not ln:
         lfmt, rfmt = '', ''
         cls.append('no-ln')
+        if rng.random() < 0.3:
+            # formats without a placeholder: a gutter that shows no numbers, ASCII, box-drawing or double-width characters
+            lfmt, rfmt = rng.choice([('\uff5c', '\uff5c'), ('\u2502+\u2502', '\u2502+\u2502'), ('\u6f22 ', '\uff1a'), ('|', '\uff5c\uff5c'), ('\uff5c', '')])
+            cls.append('ln-fmt-without-placeholder')
     elif r < 0.3:
         lfmt, rfmt = rng.choice([('{nm:>3}┊', '{np:>3}┊'), ('[{nm:<5}]', '[{np:<5}]'), ('{nm}:', '{np}:'),
                                  ('{nm:^6}⋮', '{np:^6}│'), ('漢{nm:^4}│', '漢{np:^4}│'), ('{nm:>3}：', '{np:>3}：'),
